@@ -313,6 +313,13 @@ func (g *didGen) buildDoc(id string, k int, shape int) (string, *didtypes.DIDDoc
 		relDed("capdel", id+"#deleg", didtypes.ES256K_2019, g.keys[(k+2)%len(g.keys)].b58)
 		vm(id+"#ka", didtypes.ES256K_2019, g.keys[(k+3)%len(g.keys)].b58)
 		relRef("keyagree", id+"#ka")
+	case 13: // two method ids that differ only in the letter case of the fragment: the upper-case one (another key) is listed
+		// first and serves assertions only; authentication refers to the lower-case one
+		up := id + "#" + strings.ToUpper(vmid[len(id)+1:])
+		vm(up, didtypes.ES256K_2019, g.keys[(k+1)%len(g.keys)].b58)
+		vm(vmid, didtypes.ES256K_2019, key.b58)
+		relRef("auth", vmid)
+		relRef("assert", up)
 	case 11: // duplicate ids among verification methods: the first one wins
 		vm(vmid, didtypes.ES256K_2019, key.b58)
 		vm(vmid, didtypes.ES256K_2019, g.keys[(k+1)%len(g.keys)].b58)
@@ -358,9 +365,9 @@ func (g *didGen) sign(k int, data *didtypes.DIDDocument, seq uint64, tamper int)
 
 func (g *didGen) shape() int {
 	if g.r.Chance(70) {
-		return pick(g.r, []int{0, 0, 1, 2, 3, 5, 10, 11, 12, 12})
+		return pick(g.r, []int{0, 0, 1, 2, 3, 5, 10, 11, 12, 12, 13, 13})
 	}
-	return g.r.Intn(13)
+	return g.r.Intn(14)
 }
 
 func (g *didGen) from() string { return g.accts[g.r.Intn(len(g.accts))].Addr.String() }
